@@ -24,10 +24,15 @@ FAULTY = {
     'enum_duplicate_value': (['TYPE\n  e : (a, b, a);\nEND_TYPE\n'], 'P0005', ['a']),
     'undeclared_variable': (['FUNCTION_BLOCK one\nVAR\n  a : INT;\nEND_VAR\n  a := 1;\nEND_FUNCTION_BLOCK\n', 'FUNCTION_BLOCK two\nVAR\n  b : INT;\nEND_VAR\n  a := 2;\nEND_FUNCTION_BLOCK\n'], 'P0015', ['a']),
     'subrange_inverted': (['TYPE\n  rng : INT(10..1);\nEND_TYPE\n'], 'P0004', ['10', '10..1', 'INT(10..1)', '1']),
+    'subrange_inverted_negative': (['TYPE\n  rng : INT(-1..-10);\nEND_TYPE\n'], 'P0004', ['1', '-1', '-1..-10', 'INT(-1..-10)', '10', '-10']),
+    'subrange_inverted_plus': (['TYPE\n  rng : INT(+8..+4);\nEND_TYPE\n'], 'P0004', ['8', '+8', '+8..+4', 'INT(+8..+4)', '4', '+4']),
+    'array_bounds_inverted': (['TYPE\n  ar : ARRAY[5..-3] OF INT;\nEND_TYPE\n'], 'P0004', ['5', '5..-3', '3', '-3']),
+    'duplicate_string_type': (['TYPE\n  txt : STRING[10];\nEND_TYPE\n', 'TYPE\n  txt : STRING[20];\nEND_TYPE\n'], ('P0019', 'P0020'), ['txt']),
+    'type_and_function_block_share_a_name': (['TYPE\n  thing : STRING[10];\nEND_TYPE\n', 'FUNCTION_BLOCK thing\nVAR\n  x : INT;\nEND_VAR\nEND_FUNCTION_BLOCK\n'], ('P0019', 'P0020'), ['thing']),
     'const_no_init': (['FUNCTION_BLOCK fb\nVAR CONSTANT\n  c : INT;\nEND_VAR\nEND_FUNCTION_BLOCK\n'], 'P0016', ['c', 'c : INT']),
     'stdlib_type': (['FUNCTION_BLOCK fb\nVAR\n  t : TON;\nEND_VAR\nEND_FUNCTION_BLOCK\n'], 'P0029', ['TON']),
-    'duplicate_type': (['TYPE\n  e : (a, b);\nEND_TYPE\n', 'TYPE\n  e : (c, d);\nEND_TYPE\n'], 'P0019', ['e']),
-    'duplicate_function_block': (['FUNCTION_BLOCK fb\nEND_FUNCTION_BLOCK\n', 'FUNCTION_BLOCK fb\nVAR\n  x : INT;\nEND_VAR\nEND_FUNCTION_BLOCK\n'], 'P0020', ['fb']),
+    'duplicate_type': (['TYPE\n  e : (a, b);\nEND_TYPE\n', 'TYPE\n  e : (c, d);\nEND_TYPE\n'], ('P0019', 'P0020'), ['e']),
+    'duplicate_function_block': (['FUNCTION_BLOCK fb\nEND_FUNCTION_BLOCK\n', 'FUNCTION_BLOCK fb\nVAR\n  x : INT;\nEND_VAR\nEND_FUNCTION_BLOCK\n'], ('P0019', 'P0020'), ['fb']),
     'unknown_type': (['FUNCTION_BLOCK fb\nVAR\n  v : nosuch;\nEND_VAR\nEND_FUNCTION_BLOCK\n'], 'P0022', ['nosuch']),
     'enum_not_declared': (['FUNCTION_BLOCK fb\nVAR\n  v : nosuch := a;\nEND_VAR\nEND_FUNCTION_BLOCK\n'], 'P0012', ['nosuch']),
     'recursive_alias': (['TYPE\n  ta : tb;\n  tb : ta;\nEND_TYPE\n'], 'P0010', ['ta', 'tb']),
